@@ -182,10 +182,10 @@ Definition resources_ok (b : BState) : Prop :=
               /\ th = option_map (fun t : string * Res => (fst t, res_payload (snd t))) (b_thumb b))
   /\ forallb ing_resolvable (b_ings b) = true.
 
-(* outside the two known classes: F-ARCHIVE-THUMB (a claim thumbnail but no ingredient to lend its store resolver) and
-   F-ARCHIVE-DATABOX (claim v1 keeps ingredient thumbnails in data boxes) *)
+(* outside the open class F-ARCHIVE-DATABOX (claim v1 keeps ingredient thumbnails in data boxes); the class
+   F-ARCHIVE-THUMB (a claim thumbnail but no ingredient to lend its store resolver) was repaired by 39e7c1520 *)
 Definition archive_safe (b : BState) : Prop :=
-  (b_thumb b = None \/ b_ings b <> []) /\ ((2 <= b_version b)%nat \/ Forall (fun g => g_thumb g = None) (b_ings b)).
+  (2 <= b_version b)%nat \/ Forall (fun g => g_thumb g = None) (b_ings b).
 
 Lemma claim_ing_restored : forall v g, claim_ing (restored_ing v (claim_ing g)) = claim_ing g.
 Proof.
@@ -241,7 +241,7 @@ Lemma restore_id :
                /\ sign_read sdk fresh' fmt b <> None
                /\ well_formed b' /\ resources_ok b' /\ archive_safe b'.
 Proof.
-  intros sdk fresh fresh' fmt b [Hs Hm] Hr [Ht Hv].
+  intros sdk fresh fresh' fmt b [Hs Hm] Hr Hv.
   unfold save_restore, to_archive. rewrite (to_claim_ok sdk fresh b Hr). cbn [option_map].
   eexists. split; [reflexivity|].
   set (b' := with_archive _).
@@ -254,17 +254,13 @@ Proof.
   assert (Ever : b_version b' = b_version b) by reflexivity.
   assert (Hr' : resources_ok b').
   { split.
-    - rewrite Eings, Ethumb, !has_ings_map. destruct (b_thumb b) as [[f r]|] eqn:E; cbn [option_map resolve_thumb].
-      + destruct Ht as [Ht|Ht]; [discriminate|]. destruct (b_ings b); [contradiction|]. cbn [has_ings resolve option_map].
-        eexists. split; reflexivity.
-      + eexists. split; reflexivity.
+    - rewrite Eings, Ethumb, !has_ings_map. destruct (b_thumb b) as [[f r]|] eqn:E; cbn [option_map resolve_thumb resolve];
+        eexists; split; reflexivity.
     - rewrite Eings. apply restored_resolvable. exact Hv. }
   assert (Hw' : well_formed b').
   { split; rewrite Eitems; [apply stable_reported|apply not_meta_reported]; assumption. }
   assert (Hsafe' : archive_safe b').
-  { split.
-    - destruct Ht as [Ht|Ht]; [left; rewrite Ethumb, Ht; reflexivity|right; rewrite Eings; destruct (b_ings b); [contradiction|discriminate]].
-    - rewrite Ever. destruct Hv as [Hv|Hv]; [left; exact Hv|right; rewrite Eings; apply restored_thumbs_none; exact Hv]. }
+  { unfold archive_safe. rewrite Ever. destruct Hv as [Hv|Hv]; [left; exact Hv|right; rewrite Eings; apply restored_thumbs_none; exact Hv]. }
   assert (Hsign : forall x, resources_ok x -> sign_read sdk fresh' fmt x =
             Some (mkRep (b_title x) (if Nat.leb 2 (b_version x) then None else Some fmt) (stamp_gens sdk (b_gens x))
                         (reported (b_version x) (b_items x)) (map claim_ing (b_ings x))
@@ -317,14 +313,16 @@ Lemma double_version_refuted :
   end.
 Proof. vm_compute. discriminate. Qed.
 
-(* F-ARCHIVE-THUMB: a builder with a thumbnail resource and no ingredient signs, its archive is written and restored,
-   but the restored builder cannot be signed *)
+(* the repaired class F-ARCHIVE-THUMB: a builder with a thumbnail resource and no ingredient now survives the round *)
 Definition thumb_builder : BState :=
   mkB 2 None "" "" None [] [("c2pa.actions", false, false, 1%nat)] [] (Some ("image/jpeg", Local 9)) None None false None.
 
-Lemma archive_thumb_refuted :
+Lemma archive_thumb_fixed :
   sign_read "v" "l" "f" thumb_builder <> None
-  /\ match save_restore "v" "l" thumb_builder with Some b' => sign_read "v" "l" "f" b' = None | None => False end.
+  /\ match save_restore "v" "l" thumb_builder with
+     | Some b' => sign_read "v" "l" "f" b' = sign_read "v" "l" "f" thumb_builder
+     | None => False
+     end.
 Proof. vm_compute. split; [discriminate|reflexivity]. Qed.
 
 (* F-ARCHIVE-DATABOX: claim v1, an ingredient with a thumbnail *)
